@@ -1521,7 +1521,8 @@ class Flow:
             st.hide_saves += (st.hide,)  # model of the manager; its source is checked against this model (CTX-MODEL)
             st.ev("ATOM", "save")
         elif name == "suppress_failures":
-            st.suppress += 1
+            st.tagctx += (("suppress-save", st.suppress),)  # the manager puts the previous value back (CTX-MODEL)
+            st.suppress = 1
             st.ev("SUPPRESS", True)
         elif name == "tag":
             t = _symdesc(self.deref(st, args[0])) if args else "?"
@@ -1538,8 +1539,13 @@ class Flow:
                 st.hide_saves = st.hide_saves[:-1]
             st.ev("ATOM", "restore")
         elif name == "suppress_failures":
-            st.suppress = 0
-            st.ev("SUPPRESS", False)
+            saved = [i for i, x in enumerate(st.tagctx) if isinstance(x, tuple) and x and x[0] == "suppress-save"]
+            if saved:
+                st.suppress = st.tagctx[saved[-1]][1]
+                st.tagctx = st.tagctx[: saved[-1]] + st.tagctx[saved[-1] + 1:]
+            else:
+                st.suppress = 0
+            st.ev("SUPPRESS", bool(st.suppress))
         elif name == "tag":
             if st.tags:
                 t = st.tags[-1]
